@@ -76,7 +76,7 @@ def _pack(r, recs):
                 time=round(r.time, 3))
 
 
-def run_functions(keys, tier, extra=None, procs=None):
+def run_functions(keys, tier, extra=None, procs=None, expected_fail=()):
     """Explore every function (sequential, seconds), then discharge all obligations of all
     functions on a pool of forked workers that inherit the z3 terms: one query per obligation."""
     global _OBS
@@ -87,7 +87,10 @@ def run_functions(keys, tier, extra=None, procs=None):
         r = _explore(k, tier, extra.get(k))
         results.append(r)
         for ob in (r.raw or []):
-            _OBS.append((fi, ob, tier))
+            # obligations recorded as open known findings are expected to stay unproved: one short attempt
+            # (if the defect is repaired they prove at once), no escalation, no retry
+            exp = any(fk == k and re.fullmatch(pat, ob.label) for fk, pat in expected_fail)
+            _OBS.append((fi, ob, 'expected-fail' if exp else tier))
     recs = [[] for _ in keys]
     procs = procs or 16
     todo = [i for i, (fi, ob, t) in enumerate(_OBS) if ob.status != 'trivial']
@@ -107,7 +110,7 @@ def run_functions(keys, tier, extra=None, procs=None):
     from . import verify, smt
     # an `unknown` may be a time-out under load: retry alone, one after the other, with a 6x budget,
     # before anything is made of it
-    retry = [i for i in todo if done[i]['status'] == 'unknown']
+    retry = [i for i in todo if done[i]['status'] == 'unknown' and _OBS[i][2] != 'expected-fail']
     if retry and len(retry) <= 6:
         for i in retry:
             fi, ob, t = _OBS[i]
@@ -175,10 +178,10 @@ def check_property(pid, tier='quick', seed=0):
     if not keys:
         print('ERROR no functions under contract for %s' % pid)
         return 3
-    results = run_functions(keys, tier)
     known = [k for k in load_known()
              if k.get('property') == pid or (isinstance(k.get('property'), list) and pid in k['property'])]
     open_known = [k for k in known if k.get('status') == 'open']
+    results = run_functions(keys, tier, expected_fail=[(k['function'], k['obligation']) for k in open_known])
     total = discharged = 0
     n_known_obl = 0
     failing = []       # (result, obligation)
